@@ -37,3 +37,18 @@ pub assume_specification<T>[Option::<T>::or](r: Option<T>, d: Option<T>) -> (res
 
 pub assume_specification<T: ?Sized, A: std::alloc::Allocator>[<Box<T, A> as AsRef<T>>::as_ref](b: &Box<T, A>) -> (r: &T) ensures r == &**b;
 pub assume_specification<T: ?Sized, A: std::alloc::Allocator>[<Arc<T, A> as AsRef<T>>::as_ref](b: &Arc<T, A>) -> (r: &T) ensures r == &**b;
+// order-changing slice operations (ASSUMED): sorts are permutations (nothing is promised about the order, so an order-sensitive
+// contract cannot be discharged through them), reverse / swap are exact
+pub assume_specification<T, K: Ord, F: FnMut(&T) -> K>[<[T]>::sort_by_key](s: &mut [T], f: F)
+    ensures final(s)@.to_multiset() == old(s)@.to_multiset(), final(s)@.len() == old(s)@.len();
+pub assume_specification<T: Ord>[<[T]>::sort](s: &mut [T])
+    ensures final(s)@.to_multiset() == old(s)@.to_multiset(), final(s)@.len() == old(s)@.len();
+pub assume_specification<T>[<[T]>::reverse](s: &mut [T])
+    ensures final(s)@ == old(s)@.reverse();
+pub assume_specification<T, F: FnMut(&T, &T) -> std::cmp::Ordering>[<[T]>::sort_by](s: &mut [T], f: F)
+    ensures final(s)@.to_multiset() == old(s)@.to_multiset(), final(s)@.len() == old(s)@.len();
+pub assume_specification<T: Ord>[<[T]>::sort_unstable](s: &mut [T])
+    ensures final(s)@.to_multiset() == old(s)@.to_multiset(), final(s)@.len() == old(s)@.len();
+pub assume_specification<T>[<[T]>::swap](s: &mut [T], a: usize, b: usize)
+    requires a < old(s)@.len(), b < old(s)@.len()
+    ensures final(s)@ == old(s)@.update(a as int, old(s)@[b as int]).update(b as int, old(s)@[a as int]);
